@@ -770,6 +770,7 @@ func specParseDec64(s string) int {
 
 //@ func processOcode
 //@ props C14 C10 C13
+//@ option failure-is-event
 //@ requires ctx != nil && machineCode != nil && ctx.VS != nil
 //@ requires ctx.BitMode == cpu.MODE_16BIT || ctx.BitMode == cpu.MODE_32BIT
 //@ requires ctx.DollarPosition <= 0xFFFFFFFF && len(*machineCode) <= 1<<40
@@ -777,12 +778,14 @@ func specParseDec64(s string) int {
 //@ assigns VariantStack
 
 //@ func GenerateX86
-//@ props C14 C10 C03 C13 C17
+//@ props C14 C10 C03 C13 C17 C07
 //@ requires ctx != nil
 //@ requires[A13] forall(0, len(ocodes), func(k int) bool { return ocodes[k].BitMode == 0 || ocodes[k].BitMode == cpu.MODE_16BIT || ocodes[k].BitMode == cpu.MODE_32BIT })
 //@ requires ctx.BitMode == cpu.MODE_16BIT || ctx.BitMode == cpu.MODE_32BIT
 //@ requires ctx.DollarPosition <= 0xFFFFFFFF
-//@ loop 0 invariant ctx.VS != nil && (ctx.BitMode == cpu.MODE_16BIT || ctx.BitMode == cpu.MODE_32BIT)
+//@ loop 0 invariant[ctx@C14+C10+C03+C17] ctx.VS != nil && (ctx.BitMode == cpu.MODE_16BIT || ctx.BitMode == cpu.MODE_32BIT)
+//@ loop 0 invariant[report@C07] vcCallFailed() ==> vcLoggedError()
+//@ ensures[report@C07] vcCallFailed() ==> vcLoggedError()
 //@ calls[mode@C17] processOcode : arg0.BitMode == 0 || arg1.BitMode == arg0.BitMode
-//@ ensures[result] len(result0) == len(ctx.MachineCode)
+//@ ensures[result@C14+C10+C03] len(result0) == len(ctx.MachineCode)
 //@ assigns CodeGenContext.MachineCode, CodeGenContext.VS, CodeGenContext.BitMode, VariantStack
